@@ -23,7 +23,9 @@ EXPLANATION = (
     "required/optional appends executes (disjoint by construction); (R4) categorisation and entry-point computation read the bound mapping, and "
     "bind/unbind drop the cached specification; (R5) a missing required input and an unsatisfied cycle entry are reported by raising "
     "MissingInputError on every path where the missing set is non-empty; (R6) bound values surfaced from nested graphs into the specification are "
-    "keyed by inputs of the wrapper that carries them (nothing else of an inner graph can make an outer input count as provided)."
+    "keyed by inputs of the wrapper that carries them (nothing else of an inner graph can make an outer input count as provided); (R7) bypass "
+    "detection marks a node as bypassed only when a *non-empty* set of its outputs is provided; (R8) reader/writer agreement between the validator "
+    "and the reported specification about bound values (today they disagree for bound output names: open known finding F18)."
 )
 NOT_DECIDED = "Exactness (sufficiency and necessity) of the reported specification for every configuration — a statement about the computed sets; bypass and cycle-entry matching semantics."
 
@@ -47,6 +49,8 @@ def run(ctx) -> None:
     rep.rule("C08.R4", "classification reads the bindings; bind/unbind invalidate the cached specification", floor=3)
     rep.rule("C08.R5", "missing inputs are reported by raising MissingInputError", floor=2)
     rep.rule("C08.R6", "inner bound values enter the specification only under inputs of their wrapper", floor=2)
+    rep.rule("C08.R7", "a node counts as bypassed only if a non-empty set of its outputs is provided", floor=2)
+    rep.rule("C08.R8", "every reduction of the required set that validation derives from bound values alone is also made by the reported specification", floor=1)
 
     check_validate_first(ctx, "C08.R1")
 
@@ -151,6 +155,45 @@ def run(ctx) -> None:
         ok = False
     rep.add("C08.R5", f"{cce.qname}:raises-when-unsatisfied", ok, cce.loc(), "a cycle with no satisfied entry point always raises MissingInputError" if ok else "a cycle with no satisfied entry point is not reported as MissingInputError")
 
+    # ---- R7 ---------------------------------------------------------------------
+    fb = db.func("runners._shared.validation._find_bypassed_inputs")
+    n7 = 0
+    for n in walk_local(fb.node):
+        if isinstance(n, ast.Call) and isinstance(n.func, ast.Attribute) and n.func.attr == "add" and isinstance(n.func.value, ast.Name) and "bypass" in n.func.value.id:
+            g = enclosing(n, (ast.If,))
+            if g is None:
+                continue
+            n7 += 1
+            conj = g.test.values if isinstance(g.test, ast.BoolOp) and isinstance(g.test.op, ast.And) else [g.test]
+            subs = [c for c in conj if (isinstance(c, ast.Compare) and isinstance(c.ops[0], ast.LtE)) or (isinstance(c, ast.Call) and isinstance(c.func, ast.Attribute) and c.func.attr == "issubset")]
+            ok = bool(subs)
+            for c in subs:
+                x = c.left if isinstance(c, ast.Compare) else c.func.value
+                nonempty = any(src(k) == src(x) or (isinstance(k, ast.Call) and dotted(k.func) in ("len", "bool") and k.args and src(k.args[0]) == src(x)) for k in conj if k is not c)
+                if not nonempty:
+                    ok = False
+            rep.add("C08.R7", f"{fb.qname}:bypass#{n7}", ok, f"{fb.module.rel}:{g.lineno}", "'all outputs provided' is conjoined with 'has such outputs' (the empty set is a subset of anything)" if ok else f"'{src(g.test)[:70]}' holds vacuously for a node without (such) outputs: a gate or side-effect node is marked bypassed and its exclusive required inputs are silently waived")
+    if n7 < 2:
+        raise AnalysisError("bypass marking sites not found")
+
+    # ---- R8 ---------------------------------------------------------------------
+    vi2 = db.func("runners._shared.validation.validate_inputs")
+    # validation: provided = keys(bound ∪ values); required := spec.required − bypass(provided)
+    merged_has_bound = any(isinstance(n, ast.Assign) and isinstance(n.value, ast.Dict) and any(k is None and "bound" in src(v) for k, v in zip(n.value.keys, n.value.values)) for n in walk_local(vi2.node))
+    uses_bypass = any("_find_bypassed_inputs" in call_names(db, c, vi2) for c in db.calls_in(vi2))
+    spec_clo = db.closure([cis], property_reads=False)
+    spec_knows_bypass = any(g.name == "_find_bypassed_inputs" or "bypass" in g.name for g in spec_clo)
+    if merged_has_bound and uses_bypass:
+        rep.add(
+            "C08.R8",
+            f"{cis.qname}:bound-outputs-bypass",
+            spec_knows_bypass,
+            cis.loc(),
+            "the specification applies the validator's bypass reasoning to bound values" if spec_knows_bypass else "validation treats bound values as provided and waives the inputs of producers whose outputs are all provided, but compute_input_spec never consults that reasoning: with an output name bound (Graph([a(x)->y, b(y)]).bind(y=5)) the reported spec still requires 'x', yet run({}) is accepted and run({'x': 1}) is rejected",
+        )
+    else:
+        rep.ok("C08.R8", f"{cis.qname}:bound-outputs-bypass", cis.loc(), "validation does not derive reductions of the required set from bound values")
+
     # ---- R6 ---------------------------------------------------------------------
     cb = db.func("graph.input_spec._collect_bound_values")
     check_qualifiers(ctx, "C08.R6", only=("_collect_bound_values",))
@@ -213,5 +256,6 @@ VARIANTS = [
     Variant("categorise-ignores-bound", IS, replace_once("    if param in bound or _any_node_has_default(param, nodes):", "    if _any_node_has_default(param, nodes):"), {"C08.R4"}),
     Variant("unbind-keeps-spec", CORE, replace_once("        new_graph.__dict__.pop(\"inputs\", None)\n        # _selected and _entrypoints", "        # _selected and _entrypoints"), {"C08.R4"}),
     Variant("missing-only-warns", VA, replace_once("    raise MissingInputError(\n        missing=sorted(missing_required),\n        provided=list(provided),\n        message=message,\n    )\n\n\ndef _validate_cycle_entry", "    import warnings\n\n    warnings.warn(message, stacklevel=3)\n\n\ndef _validate_cycle_entry"), {"C08.R5"}),
+    Variant("bypass-vacuous-subset", VA, replace_once("        non_cycle_outputs = set(node.outputs) - cycle_ep_params\n        if non_cycle_outputs and non_cycle_outputs <= provided:", "        non_cycle_outputs = set(node.outputs) - cycle_ep_params\n        if non_cycle_outputs <= provided:"), {"C08.R7"}),
     Variant("inner-bound-by-inner-keys", IS, replace_once("            for outer_name in node.inputs:\n                key = node._resolve_original_input_name(outer_name)\n                if key in inner_bound and outer_name not in all_bound:\n                    all_bound[outer_name] = inner_bound[key]", "            for key, value in inner_bound.items():\n                all_bound.setdefault(key, value)"), {"C08.R6"}),
 ]
